@@ -463,14 +463,37 @@ def cachedseq_respec(line, res):
     return line + " " + " ".join(p for p in res.split() if not p.startswith("n="))
 
 
-PROPS["C12"]["kinds"].append(dict(name="cachedseq", gen=cachedseq_gen, oracle=cachedseq_oracle, model=False,
+def cachedseq_compare(ir, mr):
+    """the caching-proxy model (Router/Cached.v) predicts plain sequences completely and the first two steps of a
+    prefetching sequence up to the otter clock phase (two alternatives for step 2)"""
+    if mr == "skip":
+        return True
+    fi = gens.fields(ir)
+    if mr.startswith("pf "):
+        fm = gens.fields(mr[3:])
+        return fi.get("r1") == fm.get("r1") and fi.get("r2") in fm.get("r2", "").split("|")
+    fm = gens.fields(mr)
+    if any(fi.get(k) != v for k, v in fm.items() if k != "upq"):
+        return False
+    # the miss's upstream query is the model's; a udp upstream may repeat it (retry) — compare the set
+    return set(fi.get("upq", "-").split("|")) == set(fm.get("upq", "-").split("|"))
+
+
+PROPS["C12"]["kinds"].append(dict(name="cachedseq", gen=cachedseq_gen, oracle=cachedseq_oracle, compare=cachedseq_compare,
                                   respec=cachedseq_respec, respec_kind="cachedseqspec", respec_all=True,
                                   spec_relevant=spec_for(["c12-", "c03-", "c10-"]), timeout=600, shards=2,
                                   classify=lambda l, r: "prefetch" if "/3300" in l else "cached"))
 PROPS["C12"]["rule"] += ("; cachedseq: the same question asked repeatedly on a CACHING proxy (upstream reply with OPT+cookie; EDNS and "
                          "non-EDNS clients; a hit in the last quarter of the lifetime that starts a prefetch while other DoH "
                          "clients are active): every response and every upstream query (the prefetch's included) is judged by "
-                         "the model's spec_response / spec_upstream (oracle only: the router model has no cache)")
+                         "the model's spec_response / spec_upstream, and the responses are compared octet for octet with the model of the "
+                         "caching proxy (Router/Cached.v; for a prefetching sequence up to the otter clock phase)")
+# C07 (the "unchanged" clause end to end): what a client is served from cache is, apart from TTL ageing and the ID, what
+# the proxy produced when it first relayed the answer — the same sequences, compared with the caching-proxy model
+PROPS["C07"]["kinds"].append(dict(name="cachedseq", gen=cachedseq_gen, oracle=cachedseq_oracle, compare=cachedseq_compare,
+                                  timeout=600, shards=2, classify=lambda l, r: "prefetch" if "/3300" in l else "cached"))
+PROPS["C07"]["rule"] += ("; cachedseq: repeated questions through the real listeners of a caching proxy, every response compared "
+                         "octet for octet with the caching-proxy model (Router/Cached.v)")
 PROPS["C09"]["kinds"].append(handle_kind(["c09-"]))
 
 
